@@ -38,6 +38,7 @@ FIXED_TREE = {
     "dang.svg": {"t": "l", "to": "nowhere"},
     "bin.svg": {"t": "f", "c": "\udcff\udcfe<svg"},
     "ok.svg": {"t": "f", "c": "<svg width=\"10\" height=\"20\"></svg>"},
+    "gps.tif": {"t": "f", "hex": "49492a0008000000010025880400010000001a00000000000000020001000200020000004e000000020005000300000038000000000000000a0000000000000014000000000000001e00000000000000"},   # EXIF GPS latitude 10/0 20/0 30/0 (denominator 0)
     "empty.wav": {"t": "f", "c": ""}, "dir.mkv": {"t": "d", "ch": {}}, "x.mp3": {"t": "f", "c": "ID3"}, "e.jpg": {"t": "f", "c": ""},
     "sub": {"t": "d", "ch": {
         "c.txt": {"t": "f", "c": "ccc"},
